@@ -183,10 +183,11 @@ func (w *world) die(j int, reason string) {
 			delete(w.rels, rk)
 		}
 	}
-	w.gone(pj.pid, reason)
+	// the node releases the name first, then notifies the relations on the pid
 	if pj.name != "" {
 		w.gone(gen.ProcessID{Name: pj.name, Node: w.node.Name()}, reason)
 	}
+	w.gone(pj.pid, reason)
 	for _, al := range pj.aliases {
 		w.gone(al, reason)
 	}
